@@ -39,7 +39,11 @@ from ..tlaval import iter_dump
 from ..tlc import MachineryError, run_tlc
 from ..traces import validate
 
-FAULT_KINDS = ["http", "url", "non2xx", "badjson", "nonobject", "badutf8", "nofield", "readerr"]
+FAULT_KINDS = ["http", "url", "non2xx", "non2xx_nonobject", "non2xx_badjson", "badjson", "nonobject", "badutf8",
+               "nofield", "readerr"]
+NON2XX = ("non2xx", "non2xx_nonobject", "non2xx_badjson")
+MC_KINDS = [k for k in FAULT_KINDS if k not in NON2XX[1:]]     # (the status is checked before the body: one body
+                                                               #  kind suffices in the quick theorem run)
 ALL_CALLS = ["all", "filtered", "modsince", "crsince", "infolder"]
 INVS = ["Inv_Complete", "Inv_Once", "Inv_Closed", "Inv_Family", "Inv_CacheOnlyAfterSuccess",
         "Inv_RetryComplete", "Inv_ReqCount", "Inv_FaultRaises"]
@@ -48,9 +52,9 @@ SENSITIVITY = [("NonObjectEscapes", "Inv_Family"), ("BadUtf8TokenEscapes", "Inv_
                ("CacheSiteBeforeCheck", "Inv_CacheOnlyAfterSuccess")]
 
 
-def _consts(n, p, calls=ALL_CALLS, dev=(), extra=""):
+def _consts(n, p, calls=ALL_CALLS, dev=(), extra="", kinds=None):
     q = lambda xs: "{" + ", ".join('"%s"' % x for x in xs) + "}"
-    return (f"CONSTANTS Deviations = {q(dev)}\n MaxNodes = {n}\n MaxP = {p}\n FaultKinds = {q(FAULT_KINDS)}\n"
+    return (f"CONSTANTS Deviations = {q(dev)}\n MaxNodes = {n}\n MaxP = {p}\n FaultKinds = {q(kinds or FAULT_KINDS)}\n"
             f" Calls = {q(calls)}\n{extra}")
 
 
@@ -331,9 +335,19 @@ class FakeGraph:
             if kind == "url":
                 self.log.append({"a": "Fault", "kind": "url", "code": 0, "inj": True})
                 raise URLError(self.rng.choice(["Connection refused", OSError(111, "Connection refused"), TimeoutError("timed out")]))
-            if kind == "non2xx":
-                return self._respond(code, self.rng.choice([b"", b'{"error":{"code":"generalException"}}', b"<html>gateway</html>"]),
-                                     {}, inj=True)
+            if kind in NON2XX:          # a response RETURNED with a 1xx / 3xx / 4xx / 5xx status; bodies of every shape,
+                if kind == "non2xx":    # among them objects every caller would happily consume as a page / token / site
+                    b = json.dumps(self.rng.choice([
+                        {"error": {"code": "generalException", "message": "x"}},
+                        {"value": []},
+                        {"value": [], "id": self.site_id, "access_token": "tok-not-issued", "name": "x", "folder": {}},
+                    ])).encode()
+                    tag = "ok"
+                elif kind == "non2xx_nonobject":
+                    b, tag = self.rng.choice([b"[]", b'"Not Modified"', b"null", b"304"]), "nonobject"
+                else:
+                    b, tag = self.rng.choice([b"", b"", b"<html>gateway</html>", b"Moved"]), "badjson"
+                return self._respond(code, b, {"body": tag}, inj=True)
             if kind == "readerr":
                 return self._respond(200, b"", {"body": "readerr"}, inj=True, read_error=True)
             if kind == "badjson":
@@ -348,19 +362,21 @@ class FakeGraph:
                                self.rng.choice([{"displayName": "x"}, {"id": 5}, {"id": None}, {"id": ["s"]}])).encode()
             else:
                 raise BaseException(f"unknown fault kind {kind}")       # harness bug: must not be swallowed
-            return self._respond(200, b, {"body": kind}, inj=True)
-        # ---- healthy server
+            st = self.rng.choice([200, 200, 200, 201, 206] + ([204] if b == b"" else []))    # any 2xx: still no page
+            return self._respond(st, b, {"body": kind}, inj=True)
+        # ---- healthy server (any 2xx status carrying the JSON object is a success)
+        ok = self.rng.choice([200] * 9 + [203, 206])
         k = ev["k"]
         if k == "token":
             if not ev["auth"]:
                 self._raise_http(url, 401, inj=False)
             tok = f"eyJ{self.rng.getrandbits(80):020x}"
             self.tokens.add(tok)
-            return self._respond(200, {"token_type": "Bearer", "expires_in": 3599, "access_token": tok}, {}, inj=False)
+            return self._respond(ok, {"token_type": "Bearer", "expires_in": 3599, "access_token": tok}, {}, inj=False)
         if not ev["auth"]:
             self._raise_http(url, 401, inj=False)
         if k == "site":
-            return self._respond(200, {"id": self.site_id, "displayName": "Site", "webUrl": "https://contoso.sharepoint.com"},
+            return self._respond(ok, {"id": self.site_id, "displayName": "Site", "webUrl": "https://contoso.sharepoint.com"},
                                  {}, inj=False)
         if k == "unknown" or not ev["site"] or not ev["drive"]:
             self._raise_http(url, 404 if k != "unknown" else 400, inj=False)
@@ -369,7 +385,7 @@ class FakeGraph:
             if not self.is_folder(f) or not (1 <= p <= self.npages(f)):
                 self._raise_http(url, 404, inj=False)
             doc, items, nxt = self.page_body(f, p, did)
-            return self._respond(200, doc, {"items": items, "next": nxt, "node": f, "isFolder": True}, inj=False)
+            return self._respond(ok, doc, {"items": items, "next": nxt, "node": f, "isFolder": True}, inj=False)
         node = self.resolve([uncodes(c) for c in ev["path"]])
         if node == -1:
             self._raise_http(url, 404, inj=False)
@@ -377,9 +393,9 @@ class FakeGraph:
             if not self.is_folder(node):
                 self._raise_http(url, 404, inj=False)
             doc, items, nxt = self.page_body(node, 1, did)
-            return self._respond(200, doc, {"items": items, "next": nxt, "node": node, "isFolder": True}, inj=False)
+            return self._respond(ok, doc, {"items": items, "next": nxt, "node": node, "isFolder": True}, inj=False)
         # folderByPath
-        return self._respond(200, self.item_json(node), {"node": node, "isFolder": self.is_folder(node)}, inj=False)
+        return self._respond(ok, self.item_json(node), {"node": node, "isFolder": self.is_folder(node)}, inj=False)
 
 
 # =========================================================================== concretisation
@@ -744,7 +760,8 @@ def _random_cases(seed, count):
         fault = {"at": -1, "kind": "none", "code": 0}
         if rng.random() < 0.7:
             kind_f = rng.choice(FAULT_KINDS)
-            code = {"http": rng.choice([403, 404, 500, 429]), "non2xx": rng.choice([404, 503, 302])}.get(kind_f, 0)
+            code = rng.choice([403, 404, 500, 429]) if kind_f == "http" else \
+                rng.choice([100, 101, 300, 302, 304, 307, 400, 404, 429, 500, 503]) if kind_f in NON2XX else 0
             at = rng.randint(0, 1) if kind_f == "nofield" else min(60, int(rng.expovariate(1 / 9.0)))
             fault = {"at": at, "kind": kind_f, "code": code}
         cases.append({"id": f"big{c}", "srv": srv, "job": {"call": call, "targets": targets}, "fault": fault,
@@ -789,13 +806,14 @@ def run(ctx):
     lap = lambda what: ctx.log(f"[{time.time() - T0:6.1f}s] {what}")
     # ---- 1. theorem: all small libraries x calls x one fault anywhere + retry
     mc_n, mc_p = (4, 3) if thorough else (3, 2)
-    cfg = "SPECIFICATION MCSpec\n" + _consts(mc_n, mc_p, ["all", "filtered", "infolder"]) + "".join(f"INVARIANT {i}\n" for i in INVS)
+    cfg = ("SPECIFICATION MCSpec\n" + _consts(mc_n, mc_p, ["all", "filtered", "infolder"], kinds=FAULT_KINDS if thorough else MC_KINDS)
+           + "".join(f"INVARIANT {i}\n" for i in INVS))
     r = run_tlc("Graph", cfg, scratch=ctx.scratch, timeout=3000, heap="8g", expect_fail=True)
     ev.tlc(f"Graph!MCSpec MaxNodes={mc_n} MaxP={mc_p}: 8 invariants, every fault position x kind + retry", r)
     if r.violated:
         v.violation(what=f"Graph.tla reference design violates {r.violated}", observed=r.trace[-2:], where="specs/Graph.tla")
     if thorough:
-        cfg5 = "SPECIFICATION MCSpec\n" + _consts(5, 2, ["all"]) + "".join(f"INVARIANT {i}\n" for i in INVS)
+        cfg5 = "SPECIFICATION MCSpec\n" + _consts(5, 2, ["all"], kinds=MC_KINDS) + "".join(f"INVARIANT {i}\n" for i in INVS)
         r = run_tlc("Graph", cfg5, scratch=ctx.scratch, timeout=3000, heap="8g", expect_fail=True)
         ev.tlc("Graph!MCSpec MaxNodes=5 MaxP=2 list_all_files", r)
         if r.violated:
